@@ -363,30 +363,30 @@ CHECKS = {
 
 # what the correspondence generators gained after the seeded rounds 6 and 7 (appended to the claim text by mkmanifest)
 ADDENDA = {
-    'C03': ' Round 8: custom codecs registered under every data_coding member name (the mixed-case ones included); texts filling message_payload up to 65535 octets.',
-    'C05': ' Round 8: days pass inside the stateful batches (entries of the delivery stores outlive their time-to-live and are swept by the next inbound PDU); log.py / hook.py at every level.',
-    'C07': ' Regenerated obligation start_cycle_step_order (connect, reset, the three tasks, their end, close, back-off delay). Round 8: the simulators rotate the log level (TRACE .. CRITICAL, records discarded) and the application hook extends the library SimpleHook, so log.py and hook.py run as deployed; runs with application traffic (plain, unbuildable, segmented messages queued at any time, all bind modes) judged by the predicates. Theorem connections_closed (Model/Supervisor.lean conns, driver op supc): every connection that is established is closed, one at a time, each before the next is opened and before start() returns; the observed open / close times of the traffic-free runs are compared with the model\'s.',
+    'C03': ' Round 8: custom codecs registered under every data_coding member name (the mixed-case ones included); texts filling message_payload up to 65535 octets. Round 9: the round trip through the real Sender under every default alphabet (latin_1, ascii, ucs2, gsm0338, gsm0338_packed), auto_message_payload on and off.',
+    'C05': ' Round 8: days pass inside the stateful batches (entries of the delivery stores outlive their time-to-live and are swept by the next inbound PDU); log.py / hook.py at every level. Round 9: receipt date fields of every length; an application whose sending hook keeps a window of one outstanding message while the SMSC sends requests.',
+    'C07': ' Regenerated obligation start_cycle_step_order (connect, reset, the three tasks, their end, close, back-off delay). Round 8: the simulators rotate the log level (TRACE .. CRITICAL, records discarded) and the application hook extends the library SimpleHook, so log.py and hook.py run as deployed; runs with application traffic (plain, unbuildable, segmented messages queued at any time, all bind modes) judged by the predicates. Theorem connections_closed (Model/Supervisor.lean conns, driver op supc): every connection that is established is closed, one at a time, each before the next is opened and before start() returns; the observed open / close times of the traffic-free runs are compared with the model\'s. Round 9: a peer that stops reading and answering while the Sender is suspended in drain() on a backlog (dead_peer_case); regenerated obligation keeper_step_order.',
     'C01': ' Session ledger additions: UDH-segmented messages; messages queued while the session is winding down after a drop; a message '
            'no Sender task reported is the known cancelled-sender finding only if the task holding it was cancelled, not if it ended of '
-           'its own accord. Regenerated obligation handle_response_step_order. Round 8: sessions with a correlator that persists to files and texts with lone surrogates / astral characters sent with error_handling=replace.',
-    'C02': ' Regenerated obligations: handle_request_step_order, get_delivery_step_order (Gen/Site.lean). Round 8: (no addition; the jsonutils and stale-status changes are caught by the restart histories and the reference-reuse cases).',
+           'its own accord. Regenerated obligation handle_response_step_order. Round 8: sessions with a correlator that persists to files and texts with lone surrogates / astral characters sent with error_handling=replace. Round 9: every submit_sm of a message with a text outside the GSM alphabet is read on the wire (UCS2, also when the same object is sent again after a failed transmission); stray responses to submit_sm whose transmission had failed.',
+    'C02': ' Regenerated obligations: handle_request_step_order, get_delivery_step_order (Gen/Site.lean). Round 8: (no addition; the jsonutils and stale-status changes are caught by the restart histories and the reference-reuse cases). Round 9: registered_delivery varied over every receipt-requesting value; regenerated obligation response_handler_awaits_directly.',
     'C04': ' Foreign PDUs also carry absolute validity periods with every quarter-hour offset of both signs and relative schedule times; '
-           'PDUs are decoded after PDUs the library refuses (decoder keeps no state). Round 8: the wire of the real Sender for messages it segments, with the 0..255 reference generator standing at 253..255 and 0 (session_segments_case of C08).',
+           'PDUs are decoded after PDUs the library refuses (decoder keeps no state). Round 8: the wire of the real Sender for messages it segments, with the 0..255 reference generator standing at 253..255 and 0 (session_segments_case of C08). Round 9: large PDUs (17 .. 70 KB) under back-pressure judged by the C15 monitor.',
     'C06': ' Whole queues also run with a sequence generator that passes the largest SMPP sequence number in the middle of the queue. Regenerated obligation sender_loop_step_order (Gen/Site dequeueLoop: loop nesting and order of the Sender loop). Round 8: (log.py runs at every level, see C07).',
     'C08': ' Session level: the PDUs the real Sender writes for messages with options and application parameters are read by an independent '
-           'receiver (SAR / UDH, esm_class variants with bits 7-6 set), each after every kind of previous message handled by the same Sender task. Round 8: every third text has been through the GSM, packed and UCS2 codecs before it is split; references around the 8-bit wrap.',
-    'C09': ' Histories with one source address per message (colliding concatenations), pauses up to the delivery time-to-live between segments. Regenerated obligation handle_request_step_order. Round 8: long messages trickling in: every gap inside the delivery time-to-live, the whole far beyond it.',
-    'C10': ' History cases: the same text through the packed codec in between, one representative of every Unicode category, decoder history. Round 8: the other users of the codec tables (detect_format, the splitters, SubmitSm.smpp_encode) run between the codec cases; texts of 1025 .. 70000 characters with one outsider of each kind.',
-    'C11': ' History cases: repeated texts, decoder input ending in the escape code followed by another input.',
+           'receiver (SAR / UDH, esm_class variants with bits 7-6 set), each after every kind of previous message handled by the same Sender task. Round 8: every third text has been through the GSM, packed and UCS2 codecs before it is split; references around the 8-bit wrap. Round 9: what the application does while a message is being segmented: a sending hook that takes 1.2 s per PDU with relative schedule / validity times on the message, a hook that re-targets the message object after the first PDU; regenerated obligation segments_cloned_before_sending (nested function definitions are marked in the fingerprints).',
+    'C09': ' Histories with one source address per message (colliding concatenations), pauses up to the delivery time-to-live between segments. Regenerated obligation handle_request_step_order. Round 8: long messages trickling in: every gap inside the delivery time-to-live, the whole far beyond it. Round 9: regenerated obligation request_handler_awaits_directly (no time-out / task / shield around reassembly).',
+    'C10': ' History cases: the same text through the packed codec in between, one representative of every Unicode category, decoder history. Round 8: the other users of the codec tables (detect_format, the splitters, SubmitSm.smpp_encode) run between the codec cases; texts of 1025 .. 70000 characters with one outsider of each kind. Round 9: the UCS2 fall-back on the wire for messages sent again after a failed transmission (session ledger, wire check).',
+    'C11': ' History cases: repeated texts, decoder input ending in the escape code followed by another input. Round 9: the packed codec through the real Sender on texts of 2100 .. 4500 characters with extension characters early on.',
     'C12': ' Objects are serialised again after the library changed them, the same JSON text is decoded twice with the first result changed in '
-           'between, time fields use the library\'s own tzinfo class.',
-    'C13': ' Exceptions raised by a correlator operation under an interleaving are observations (the check goes on to name the schedule). Regenerated obligation handle_response_step_order.',
-    'C14': ' The by-the-next-request clause counts the bind request of a reconnect; exceptions raised under an interleaving are observations. Round 8: error responses without a body (SMPP 3.4 4.4.2) from the scripted SMSCs; a request answered at once is never reported as timed out.',
+           'between, time fields use the library\'s own tzinfo class. Round 9: the same object serialised again after exactly ONE field changed (sequence number, log_id, extra_data, status, encoding, a parameter).',
+    'C13': ' Exceptions raised by a correlator operation under an interleaving are observations (the check goes on to name the schedule). Regenerated obligation handle_response_step_order. Round 9: regenerated obligation send_data_step_order (request stored only after the drain); stray responses after failed transmissions.',
+    'C14': ' The by-the-next-request clause counts the bind request of a reconnect; exceptions raised under an interleaving are observations. Round 8: error responses without a body (SMPP 3.4 4.4.2) from the scripted SMSCs; a request answered at once is never reported as timed out. Round 9: a response that arrives within the time-to-live must be matched under every schedule; sweeps cancelled during a notification (every overdue request still reported exactly once).',
     'C15': ' Inbound traffic includes delivery receipts of every shape (without dates, dates with seconds, words for numbers, unknown fields), '
-           'peer unbind followed by enqueues. Round 8: inbound deliver_sm with schedule / validity strings of every shape; submit_sm PDUs of 33, 40 and 70 KB under back-pressure. Theorem receiver_reactions_accepted: the reactions of the Receiver model (C05) to ANY inbound PDUs are accepted by the monitor.',
+           'peer unbind followed by enqueues. Round 8: inbound deliver_sm with schedule / validity strings of every shape; submit_sm PDUs of 33, 40 and 70 KB under back-pressure. Theorem receiver_reactions_accepted: the reactions of the Receiver model (C05) to ANY inbound PDUs are accepted by the monitor. Round 9: every request of an undisturbed bound session is answered; inbound PDUs beyond 64 KiB; a received hook that hangs while the session is given up (no deliver_sm_resp before the hook returned).',
     'C16': ' Sessions with application submits and a peer that stops reading; arrival times are taken where the PDU is read. Regenerated obligation keeper_step_order (the probe is a task of its own). Round 8: sessions whose sequence generator is about to wrap (the probes draw from it).',
-    'C17': ' Datetimes of both seasons through ONE rule-based tzinfo object per zone (its offset depends on the date).',
+    'C17': ' Datetimes of both seasons through ONE rule-based tzinfo object per zone (its offset depends on the date). Round 9: relative times on the segments of a message whose Sender waits between segments.',
     'C18': ' An exception out of limit() is an observation judged by the predicate. Regenerated obligation gate_step_order (throttle handler and limiter consulted inside the loop over the PDUs of a message).',
-    'C19': ' Reboot cases: the new process\'s monotonic clock starts over, far below the stamps in the files; the correlations must still be found. Regenerated obligation in_place_changes_assigned_back (Gen/AssignBack.lean: a static analysis of SimpleCorrelator finds every in-place change of an object taken from a persisted store and checks that an assignment back to the store follows that is not nested deeper than the change). Round 8: a restart after the scheduled / validity time of a stored message has passed (real time, 1.3 s).',
-    'C20': ' The same DeliverSm is parsed a second time (as the library itself does) and must give the same dictionary. Round 8: a second DeliverSm with the same text and another receipted_message_id parameter; receipts read by the hook after the ESME parsed, logged and correlated them (every log level).',
+    'C19': ' Reboot cases: the new process\'s monotonic clock starts over, far below the stamps in the files; the correlations must still be found. Regenerated obligation in_place_changes_assigned_back (Gen/AssignBack.lean: a static analysis of SimpleCorrelator finds every in-place change of an object taken from a persisted store and checks that an assignment back to the store follows that is not nested deeper than the change). Round 8: a restart after the scheduled / validity time of a stored message has passed (real time, 1.3 s). Round 9: texts with lone surrogates in stored messages; an operation that raises is a failure; the files as they are while a send_error hook is suspended (crash at that moment).',
+    'C20': ' The same DeliverSm is parsed a second time (as the library itself does) and must give the same dictionary. Round 8: a second DeliverSm with the same text and another receipted_message_id parameter; receipts read by the hook after the ESME parsed, logged and correlated them (every log level). Round 9: ids from nowhere; the receipt handed over for a segmented message parses to what its own text says.',
 }
